@@ -4,7 +4,7 @@
    worker states before it waits).  N = number of worker threads, na = number of trial step lengths,
    lt = order of the residuals; all unbounded.  Proofs: C12_Proofs.v. *)
 From Coq Require Import List Arith Bool.
-From PS Require Import Handshake C12_Proofs.
+From PS Require Import Handshake C12_Proofs C12_Termination.
 Import ListNotations.
 
 Section C12.
@@ -32,6 +32,48 @@ Theorem C12_race_free : forall shared_common s t1 t2 l,
   raceb N na lt true shared_common s t1 t2 l = false.
 Proof. intros sc s t1 t2 l H Hl. apply race_free_inv; [exact HN | apply (inv_reachable N na lt HN); assumption | exact Hl]. Qed.
 
+(* ---- termination under every schedule ----
+   Executions are arbitrary interleavings of thread steps (EStep t) and spurious wake-ups (ESpur t) of threads blocked in
+   cond_wait.  Spurious wake-ups are allowed by POSIX at any time and in any number, so an adversarial scheduler can keep a
+   `while (..) cond_wait` loop spinning for ever: no statement "every execution is finite" is true.  What is proved is the exact
+   accounting: a potential Phi : state -> nat (C12_Termination.v) that EVERY thread step lowers by at least 1 and a spurious
+   wake-up raises by at most 2 (the woken thread re-acquires the mutex, re-tests, waits again) — on all states, reachable or
+   not, for every N and na, for the code as found (fixed = false) and as fixed. *)
+Theorem C12_measure : forall fixed s t s',
+  (step N na lt fixed s t = Some s' -> Phi N na s' < Phi N na s) /\
+  (spurious N s t = Some s' -> Phi N na s' <= Phi N na s + 2).
+Proof. exact (measure_facts N na lt). Qed.
+
+(* along every execution from every state:  #thread steps + Phi(end) <= Phi(start) + 2 * #spurious wake-ups *)
+Theorem C12_terminates : forall fixed evs s s',
+  exec N na lt fixed s evs = Some s' -> nsteps evs + Phi N na s' <= Phi N na s + 2 * nspur evs.
+Proof. exact (exec_bound N na lt). Qed.
+
+(* explicit bounds: B0 from the initial state, Bmax from ANY state (so in particular from every reachable one) *)
+Theorem C12_terminates_from_init : forall fixed evs s',
+  exec N na lt fixed init evs = Some s' -> nsteps evs <= B0 N na + 2 * nspur evs.
+Proof. exact (exec_bound_init N na lt). Qed.
+Theorem C12_terminates_from_any : forall fixed evs s s',
+  exec N na lt fixed s evs = Some s' -> nsteps evs <= Bmax N na + 2 * nspur evs.
+Proof. exact (exec_bound_any N na lt). Qed.
+(* B0 written out (nblocks = ceil(na / N), the number of iterations of the for loop): 7 + 2N thread steps per trial step,
+   6 + 2N per block, 6N + 6 for thread creation and termination *)
+Theorem C12_B0 : 1 <= na -> B0 N na = (6 * N + 6) + nblocks N na * (6 + 2 * N) + na * (7 + 2 * N).
+Proof. exact (B0_closed_form N na HN). Qed.
+
+(* schedules of thread steps only (Handshake.run): at most B0 steps from init, at most Bmax from any state *)
+Theorem C12_schedule_length : forall fixed sch s s',
+  run N na lt fixed s sch = Some s' -> length sch <= Bmax N na /\ (s = init -> length sch <= B0 N na).
+Proof. exact (run_bounds N na lt). Qed.
+
+(* the step relation is well-founded, and no infinite sequence of states has a tail of thread steps only:
+   an infinite execution needs infinitely many spurious wake-ups *)
+Theorem C12_step_wf : forall fixed, well_founded (step_succ N na lt fixed).
+Proof. exact (step_wf N na lt). Qed.
+Theorem C12_no_infinite_execution : forall fixed (sigma : nat -> state) n0,
+  ~ (forall n, n0 <= n -> exists t, step N na lt fixed (sigma n) t = Some (sigma (S n))).
+Proof. exact (no_infinite_steps N na lt). Qed.
+
 (* schedule- and N-independence of the result: whenever walk_descents has returned, what it copied into x/H1 and its
    return value are those of the sequential selection walk_spec (first trial step a >= 1, in order, that reduces the residual
    w.r.t. step 0, else the last one; feasible = whether it reduces it) — a function of (na, lt) only: no N, no schedule *)
@@ -42,6 +84,21 @@ Proof. exact (deterministic_spec N na lt HN Hna). Qed.
 Theorem C12_deterministic_first_good : forall s,
   reachable N na lt true s -> finished s -> exists a, result s = Some (Some a, lt a 0) /\ is_first_good na lt a.
 Proof. exact (deterministic_reachable N na lt HN Hna). Qed.
+
+(* termination + no deadlock + determinism: from every reachable state, against every scheduler that picks the thread steps and
+   may inject up to k spurious wake-ups (k arbitrary), reaching a state where walk_descents has returned with the sequential
+   result is INEVITABLE ([inevitably]: the goal holds now, or some thread has a step and the goal is inevitable after every
+   possible next step / spurious wake-up) *)
+Theorem C12_eventually_finished : forall k s,
+  reachable N na lt true s -> inevitably N na lt true (fun s' => finished s' /\ result s' = walk_spec na lt) k s.
+Proof. exact (eventually_finished N na lt HN Hna). Qed.
+
+(* the same for a concrete complete run: an execution from the initial state that stops where no thread has a step has
+   returned from walk_descents with the sequential result, after at most B0 + 2 * #spurious thread steps *)
+Theorem C12_maximal_execution_finished : forall evs s',
+  exec N na lt true init evs = Some s' -> (forall t, step N na lt true s' t = None) ->
+  finished s' /\ result s' = walk_spec na lt /\ nsteps evs <= B0 N na + 2 * nspur evs.
+Proof. exact (maximal_execution N na lt HN Hna). Qed.
 End C12.
 
 (* ---- the code as found ---- *)
@@ -60,6 +117,12 @@ Proof. exact refuted_race_common. Qed.
 Example C12_ex_finished : exists s,
   reachable 2 3 lt_ex true s /\ finished s /\ result s = Some (Some 2, true) /\ length ex_schedule = 53.
 Proof. exact ex_finished_reachable. Qed.
+(* the bound for N = 2 workers, na = 3 trial steps: B0 = 71 (Bmax = 155 from arbitrary states); the 53-step run above is within
+   it and ends with potential 0.  (The exact maximum over all schedules of this configuration, measured by the extracted
+   model's exhaustive search, is 67.) *)
+Example C12_ex_bound : B0 2 3 = 71 /\ Bmax 2 3 = 155 /\ length ex_schedule <= B0 2 3 /\
+  exists s, run 2 3 lt_ex true init ex_schedule = Some s /\ finished s /\ Phi 2 3 s = 0.
+Proof. exact ex_bound. Qed.
 Example C12_ex_reading : exists s,
   reachable 2 3 lt_ex true s /\ coordinator_reading 2 3 s 0 /\ coordinator_reading 2 3 s 1.
 Proof. exact ex_reading_reachable. Qed.
@@ -69,5 +132,15 @@ Print Assumptions C12_no_early_read.
 Print Assumptions C12_race_free.
 Print Assumptions C12_deterministic.
 Print Assumptions C12_deterministic_first_good.
+Print Assumptions C12_measure.
+Print Assumptions C12_terminates.
+Print Assumptions C12_terminates_from_init.
+Print Assumptions C12_terminates_from_any.
+Print Assumptions C12_B0.
+Print Assumptions C12_schedule_length.
+Print Assumptions C12_step_wf.
+Print Assumptions C12_no_infinite_execution.
+Print Assumptions C12_eventually_finished.
+Print Assumptions C12_maximal_execution_finished.
 Print Assumptions C12_refuted_lost_wakeup.
 Print Assumptions C12_refuted_race_common.
